@@ -14,6 +14,46 @@ import (
 // NativeFn is an engine-provided callable (used for stubbed method sets).
 type NativeFn func(w *Worker, args []Value) Value
 
+// fnInfo numbers the SSA values of a function so that a frame's environment
+// is a slice instead of a map.
+type fnInfo struct {
+	idx map[ssa.Value]int
+	n   int
+}
+
+func (w *Worker) infoFor(fn *ssa.Function) *fnInfo {
+	if fi, ok := w.fnInfos[fn]; ok {
+		return fi
+	}
+	fi := &fnInfo{idx: map[ssa.Value]int{}}
+	add := func(v ssa.Value) {
+		if _, ok := fi.idx[v]; !ok {
+			fi.idx[v] = fi.n
+			fi.n++
+		}
+	}
+	for _, p := range fn.Params {
+		add(p)
+	}
+	for _, fv := range fn.FreeVars {
+		add(fv)
+	}
+	for _, l := range fn.Locals {
+		add(l)
+	}
+	for _, b := range fn.Blocks {
+		for _, in := range b.Instrs {
+			if v, ok := in.(ssa.Value); ok {
+				add(v)
+			}
+		}
+	}
+	w.fnInfos[fn] = fi
+	return fi
+}
+
+func (fr *frame) set(key ssa.Value, v Value) { fr.env[fr.info.idx[key]] = v }
+
 // targetPanic is a panic of the interpreted program.
 type targetPanic struct {
 	V    Value
@@ -40,7 +80,8 @@ type frame struct {
 	fn        *ssa.Function
 	block     *ssa.BasicBlock
 	prevBlock *ssa.BasicBlock
-	env       map[ssa.Value]Value
+	env       []Value
+	info      *fnInfo
 	locals    []Value
 	defers    *deferred
 	result    Value
@@ -91,8 +132,8 @@ func (fr *frame) get(key ssa.Value) Value {
 	case *ssa.Global:
 		return fr.w.globalAddr(key)
 	}
-	if r, ok := fr.env[key]; ok {
-		return r
+	if i, ok := fr.info.idx[key]; ok {
+		return fr.env[i]
 	}
 	panic(pathAbort{"engine", fmt.Sprintf("get: no value for %T %v in %v", key, key.Name(), fr.fn)})
 }
@@ -283,18 +324,19 @@ func (w *Worker) callSSA(caller *frame, pos token.Pos, fn *ssa.Function, args []
 	}
 	defer func() { w.depth-- }()
 	w.noteFunc(fn)
-	fr.env = make(map[ssa.Value]Value, 16)
+	fr.info = w.infoFor(fn)
+	fr.env = make([]Value, fr.info.n)
 	fr.block = fn.Blocks[0]
 	fr.locals = make([]Value, len(fn.Locals))
 	for i, l := range fn.Locals {
 		fr.locals[i] = zero(mustDeref(l.Type()))
-		fr.env[l] = &fr.locals[i]
+		fr.set(l, &fr.locals[i])
 	}
 	for i, p := range fn.Params {
-		fr.env[p] = args[i]
+		fr.set(p, args[i])
 	}
 	for i, fv := range fn.FreeVars {
-		fr.env[fv] = env[i]
+		fr.set(fv, env[i])
 	}
 	for fr.block != nil {
 		w.runFrame(fr)
@@ -368,7 +410,7 @@ func (w *Worker) runFrame(fr *frame) {
 				tmp[i] = fr.get(instrs[i].(*ssa.Phi).Edges[predIndex])
 			}
 			for i := 0; i < n; i++ {
-				fr.env[instrs[i].(*ssa.Phi)] = tmp[i]
+				fr.set(instrs[i].(*ssa.Phi), tmp[i])
 			}
 		}
 		jumped := false
@@ -423,23 +465,23 @@ func (w *Worker) visitInstr(fr *frame, instr ssa.Instruction) continuation {
 	case *ssa.DebugRef:
 
 	case *ssa.UnOp:
-		fr.env[instr] = w.unop(fr, instr, fr.get(instr.X))
+		fr.set(instr, w.unop(fr, instr, fr.get(instr.X)))
 
 	case *ssa.BinOp:
-		fr.env[instr] = w.binop(fr, instr, instr.Op, instr.X.Type(), fr.get(instr.X), fr.get(instr.Y))
+		fr.set(instr, w.binop(fr, instr, instr.Op, instr.X.Type(), fr.get(instr.X), fr.get(instr.Y)))
 
 	case *ssa.Call:
 		fn, args := w.prepareCall(fr, &instr.Call, instr)
-		fr.env[instr] = w.call(fr, instr.Pos(), fn, args)
+		fr.set(instr, w.call(fr, instr.Pos(), fn, args))
 
 	case *ssa.ChangeInterface:
-		fr.env[instr] = fr.get(instr.X)
+		fr.set(instr, fr.get(instr.X))
 
 	case *ssa.ChangeType:
-		fr.env[instr] = fr.get(instr.X)
+		fr.set(instr, fr.get(instr.X))
 
 	case *ssa.Convert:
-		fr.env[instr] = w.conv(fr, instr, instr.Type(), instr.X.Type(), fr.get(instr.X))
+		fr.set(instr, w.conv(fr, instr, instr.Type(), instr.X.Type(), fr.get(instr.X)))
 
 	case *ssa.SliceToArrayPointer:
 		x := w.asSlice(fr.get(instr.X))
@@ -448,21 +490,21 @@ func (w *Worker) visitInstr(fr *frame, instr ssa.Instruction) continuation {
 			fr.rtPanic(instr, fmt.Sprintf("cannot convert slice with length %d to array or pointer to array with length %d", len(x), n))
 		}
 		if x == nil {
-			fr.env[instr] = (*Value)(nil)
+			fr.set(instr, (*Value)(nil))
 		} else {
 			// aliasing view: an Array sharing the slice cells
 			var cell Value = Array(x[:n:n])
-			fr.env[instr] = &cell
+			fr.set(instr, &cell)
 		}
 
 	case *ssa.MakeInterface:
-		fr.env[instr] = Iface{T: instr.X.Type(), V: fr.get(instr.X)}
+		fr.set(instr, Iface{T: instr.X.Type(), V: fr.get(instr.X)})
 
 	case *ssa.Extract:
-		fr.env[instr] = fr.get(instr.Tuple).(Tuple)[instr.Index]
+		fr.set(instr, fr.get(instr.Tuple).(Tuple)[instr.Index])
 
 	case *ssa.Slice:
-		fr.env[instr] = w.sliceOp(fr, instr)
+		fr.set(instr, w.sliceOp(fr, instr))
 
 	case *ssa.Return:
 		switch len(instr.Results) {
@@ -529,49 +571,49 @@ func (w *Worker) visitInstr(fr *frame, instr ssa.Instruction) continuation {
 	case *ssa.MakeChan:
 		n := w.concInt(fr.get(instr.Size).(Int), "makechan")
 		w.chanSeq++
-		fr.env[instr] = &Chan{Cap: int(n), ID: w.chanSeq, Elem: instr.Type().Underlying().(*types.Chan).Elem()}
+		fr.set(instr, &Chan{Cap: int(n), ID: w.chanSeq, Elem: instr.Type().Underlying().(*types.Chan).Elem()})
 
 	case *ssa.Alloc:
 		var addr *Value
 		if instr.Heap {
 			addr = new(Value)
-			fr.env[instr] = addr
+			fr.set(instr, addr)
 			w.noteAlloc(fr, instr)
 		} else {
-			addr = fr.env[instr].(*Value)
+			addr = fr.get(instr).(*Value)
 		}
 		*addr = zero(mustDeref(instr.Type()))
 
 	case *ssa.MakeSlice:
-		fr.env[instr] = w.makeSlice(fr, instr)
+		fr.set(instr, w.makeSlice(fr, instr))
 
 	case *ssa.MakeMap:
-		fr.env[instr] = newMap(instr.Type().Underlying().(*types.Map))
+		fr.set(instr, newMap(instr.Type().Underlying().(*types.Map)))
 
 	case *ssa.Range:
-		fr.env[instr] = w.rangeIter(fr, instr, fr.get(instr.X))
+		fr.set(instr, w.rangeIter(fr, instr, fr.get(instr.X)))
 
 	case *ssa.Next:
-		fr.env[instr] = fr.get(instr.Iter).(iter).next(w)
+		fr.set(instr, fr.get(instr.Iter).(iter).next(w))
 
 	case *ssa.FieldAddr:
 		p := fr.get(instr.X).(*Value)
 		if p == nil {
 			fr.rtPanic(instr, "invalid memory address or nil pointer dereference")
 		}
-		fr.env[instr] = &(*p).(Struct)[instr.Field]
+		fr.set(instr, &(*p).(Struct)[instr.Field])
 
 	case *ssa.Field:
-		fr.env[instr] = fr.get(instr.X).(Struct)[instr.Field]
+		fr.set(instr, fr.get(instr.X).(Struct)[instr.Field])
 
 	case *ssa.IndexAddr:
-		fr.env[instr] = w.indexAddr(fr, instr)
+		fr.set(instr, w.indexAddr(fr, instr))
 
 	case *ssa.Index:
-		fr.env[instr] = w.index(fr, instr)
+		fr.set(instr, w.index(fr, instr))
 
 	case *ssa.Lookup:
-		fr.env[instr] = w.lookup(fr, instr)
+		fr.set(instr, w.lookup(fr, instr))
 
 	case *ssa.MapUpdate:
 		m := fr.get(instr.Map).(*Map)
@@ -582,17 +624,17 @@ func (w *Worker) visitInstr(fr *frame, instr ssa.Instruction) continuation {
 		w.mapInsert(m, fr.get(instr.Key), fr.get(instr.Value))
 
 	case *ssa.TypeAssert:
-		fr.env[instr] = w.typeAssert(fr, instr, fr.get(instr.X).(Iface))
+		fr.set(instr, w.typeAssert(fr, instr, fr.get(instr.X).(Iface)))
 
 	case *ssa.MakeClosure:
 		var bindings []Value
 		for _, b := range instr.Bindings {
 			bindings = append(bindings, fr.get(b))
 		}
-		fr.env[instr] = &Closure{Fn: instr.Fn.(*ssa.Function), Env: bindings}
+		fr.set(instr, &Closure{Fn: instr.Fn.(*ssa.Function), Env: bindings})
 
 	case *ssa.Select:
-		fr.env[instr] = w.selectOp(fr, instr)
+		fr.set(instr, w.selectOp(fr, instr))
 
 	default:
 		panic(pathAbort{"engine", fmt.Sprintf("unsupported instruction %T in %s", instr, fr.fn)})
